@@ -270,6 +270,9 @@ func checkC15(w *World) {
 	// no package-level state is written by the entry points: an unsynchronised cache (a plain map) written by Exec or
 	// Unmarshal aborts the whole process with "concurrent map writes", which no recover() can turn into an error
 	w.include(P, "C13", "R13.2")
+	// BuildExpr returns an error for what it cannot parse: the hand-written front end recovers, indexes within bounds
+	// and reads the forest through the accessors that tolerate ambiguity
+	w.include(P, "C08", "R08.5", "R08.6", "R08.13")
 }
 
 // adapterError: the decoder's error is returned with a nil node under err != nil.
@@ -429,6 +432,35 @@ func (w *World) reflectGuards(P string) {
 				nUser++
 				g := guardedByReflect(c.Block(), recv, "CanAddr", true)
 				w.check(P, "R15.1", "Addr in "+fn.Name(), c.Pos(), g, fmt.Sprintf("guarded by CanAddr(): %v (a struct passed by value is not addressable)", g))
+			case "SetString", "SetBool", "SetInt", "SetUint", "SetFloat", "SetComplex", "SetBytes", "SetLen", "SetCap", "SetPointer", "SetZero", "SetMapIndex", "Grow":
+				// the typed setters (and Grow) panic on a value that is not settable exactly as Set does
+				fresh := false
+				if rc, ok := recv.(*ssa.Call); ok && reflectMethod(rc) == "Elem" {
+					if nc, ok := rc.Call.Args[0].(*ssa.Call); ok && staticCallee(nc) != nil && funcFullName(staticCallee(nc)) == "reflect.New" {
+						fresh = true
+					}
+				}
+				if !fresh {
+					nSet++
+					canSet := guardedByReflect(c.Block(), recv, "CanSet", true)
+					if p, isParam := recv.(*ssa.Parameter); isParam && !canSet {
+						idx := -1
+						for i, x := range fn.Params {
+							if x == p {
+								idx = i
+							}
+						}
+						sites := w.callersOf(fn)
+						all := idx >= 0 && len(sites) > 0
+						for _, site := range sites {
+							if idx < 0 || idx >= len(site.Call.Args) || !guardedByReflect(site.Block(), site.Call.Args[idx], "CanSet", true) {
+								all = false
+							}
+						}
+						canSet = all
+					}
+					w.check(P, "R15.1", m+" in "+fn.Name(), c.Pos(), canSet, fmt.Sprintf("guarded by CanSet() on the same value: %v (an unexported field, or a target passed by value, is not settable and the call panics outside any recover)", canSet))
+				}
 			case "Set":
 				nSet++
 				canSet := guardedByReflect(c.Block(), recv, "CanSet", true)
@@ -618,7 +650,18 @@ func (w *World) boundsDiscipline(P string, f *Facts, r *Roles) {
 						why = "match position plus len(substring) of a successful strings.Index"
 					}
 				}
-				if why == "" && fn.Parent() != nil && literalBoundSafe(fn, idx, base) {
+				if why == "" && kind == "index" {
+				// len(x) - 1 - n with n the counter of an ascending loop over x (the mirror image of the element)
+				if bo, ok := idx.(*ssa.BinOp); ok && bo.Op == token.SUB && isLenMinusConst(bo.X, nil) && ascendingCounter(bo.Y) {
+					if k, _ := constInt(bo.X.(*ssa.BinOp).Y); k == 1 {
+						lenArg := bo.X.(*ssa.BinOp).X.(*ssa.Call).Call.Args[0]
+						if (stripConv(lenArg) == stripConv(base) || sameObj(lenArg, base)) && lenGuarded(in.Block(), bo.Y, base) {
+							why = "len(x) - 1 - n with n the counter of an ascending loop bounded by len(x)"
+						}
+					}
+				}
+			}
+			if why == "" && fn.Parent() != nil && literalBoundSafe(fn, idx, base) {
 					why = "bound and string are parameters of a function literal; where the helper it was handed to calls it, the bound is the (non-negative) position strings.Index found in the string passed with it, that position plus the length of the match, or guarded by the length"
 				}
 				if why == "" && kind == "index" && w.paramIndexSafeAtCallers(fn, idx, base) {
@@ -1465,7 +1508,166 @@ func checkC19(w *World) {
 			}
 		})
 	}
-	w.floor(P, "R19.2", 3)
+	// multi-dimensional slices: an error return under `kind == reflect.Slice`, where the kind is that of the element type
+	// with every pointer level removed (`[]*[]string` is two-dimensional as well)
+	{
+		const kindPointer, kindSlice = 22, 23
+		typeOfKind := func(v ssa.Value) ssa.Value {
+			if c, ok := stripConv(v).(*ssa.Call); ok {
+				if c.Call.IsInvoke() && c.Call.Method.Name() == "Kind" {
+					return c.Call.Value
+				}
+				if reflectMethod(c) == "Kind" && len(c.Call.Args) > 0 {
+					return c.Call.Args[0]
+				}
+			}
+			return nil
+		}
+		kindTest := func(a atom, k int64) (ssa.Value, bool) {
+			bo, ok := a.V.(*ssa.BinOp)
+			if !ok || (bo.Op != token.EQL && bo.Op != token.NEQ) {
+				return nil, false
+			}
+			x, y := bo.X, bo.Y
+			if c, isK := constInt(x); isK && c == k {
+				x, y = y, x
+			}
+			if c, isK := constInt(y); !isK || c != k {
+				return nil, false
+			}
+			return x, (bo.Op == token.EQL) == a.Pol
+		}
+		sameKind := func(a, b ssa.Value) bool {
+			if a == b {
+				return true
+			}
+			ta, tb := typeOfKind(a), typeOfKind(b)
+			return ta != nil && ta == tb
+		}
+		// typeStripped: at block blk the reflect.Type T is known to have no pointer level left: a `T.Kind() == Pointer`
+		// test failed on the way; T was handed back by a helper of the package all of whose returns are stripped; or T
+		// is a parameter and every caller passes a stripped type
+		var typeStripped func(T ssa.Value, blk *ssa.BasicBlock, depth int) bool
+		typeStripped = func(T ssa.Value, blk *ssa.BasicBlock, depth int) bool {
+			if T == nil || depth > 3 {
+				return false
+			}
+			// kindOfT: the kind value x is the kind of T - T.Kind(), or a loop variable kept in step with the loop
+			// variable T (`for kind == Pointer { T = T.Elem(); kind = T.Kind() }`)
+			kindOfT := func(x ssa.Value) bool {
+				if typeOfKind(x) == T {
+					return true
+				}
+				kp, ok1 := x.(*ssa.Phi)
+				tp, ok2 := T.(*ssa.Phi)
+				if !ok1 || !ok2 || kp.Block() != tp.Block() || len(kp.Edges) != len(tp.Edges) {
+					return false
+				}
+				for i := range kp.Edges {
+					if typeOfKind(kp.Edges[i]) != tp.Edges[i] {
+						return false
+					}
+				}
+				return true
+			}
+			for _, a := range guardAtoms(blk) {
+				if x, isEq := kindTest(a, kindPointer); x != nil && !isEq && kindOfT(x) {
+					return true
+				}
+			}
+			switch x := stripConv(T).(type) {
+			case *ssa.Parameter:
+				g := x.Parent()
+				pi := -1
+				for i, p := range g.Params {
+					if p == x {
+						pi = i
+					}
+				}
+				sites := w.callersOf(g)
+				all := pi >= 0 && len(sites) > 0
+				for _, site := range sites {
+					if pi < 0 || pi >= len(site.Call.Args) || !typeStripped(site.Call.Args[pi], site.Block(), depth+1) {
+						all = false
+					}
+				}
+				return all
+			case *ssa.Call, *ssa.Extract:
+				idx := 0
+				var call *ssa.Call
+				if c, ok := x.(*ssa.Call); ok {
+					call = c
+				} else if ex, ok := x.(*ssa.Extract); ok {
+					call, _ = ex.Tuple.(*ssa.Call)
+					idx = ex.Index
+				}
+				if call == nil {
+					return false
+				}
+				h := staticCallee(call)
+				if h == nil || fnPkgKey(h) != "exec" || len(h.Blocks) == 0 {
+					return false
+				}
+				all, n := true, 0
+				allInstrs(h, func(in ssa.Instruction) {
+					ret, ok := in.(*ssa.Return)
+					if !ok || idx >= len(ret.Results) {
+						return
+					}
+					n++
+					if !typeStripped(ret.Results[idx], ret.Block(), depth+1) {
+						all = false
+					}
+				})
+				return all && n > 0
+			}
+			return false
+		}
+		// notPointer: at block blk the kind value K is known not to be Pointer
+		notPointer := func(K ssa.Value, blk *ssa.BasicBlock, depth int) bool {
+			for _, a := range guardAtoms(blk) {
+				if x, isEq := kindTest(a, kindPointer); x != nil && !isEq && sameKind(x, K) {
+					return true
+				}
+			}
+			return typeStripped(typeOfKind(K), blk, 0)
+		}
+		found, stripped := false, true
+		var where token.Pos
+		for g := range closure {
+			allInstrs(g, func(in ssa.Instruction) {
+				ret, ok := in.(*ssa.Return)
+				if !ok || len(ret.Results) == 0 || isNilConst(ret.Results[len(ret.Results)-1]) {
+					return
+				}
+				// an error made here, not one handed up from the slice walk
+				if ec, isCall := stripConvAll(ret.Results[len(ret.Results)-1]).(*ssa.Call); !isCall || staticCallee(ec) == nil || inRepo(staticCallee(ec)) {
+					return
+				}
+				for _, a := range guardAtoms(ret.Block()) {
+					K, isEq := kindTest(a, kindSlice)
+					if K == nil || !isEq {
+						continue
+					}
+					if _, isKind := K.Type().(*types.Named); !isKind || K.Type().String() != "reflect.Kind" {
+						continue
+					}
+					found = true
+					where = ret.Pos()
+					// the test's own block is where the kind must be known to be pointer-free
+					tb := ret.Block()
+					if bo, isBo := a.V.(*ssa.BinOp); isBo && bo.Block() != nil {
+						tb = bo.Block()
+					}
+					if !notPointer(K, tb, 0) && !notPointer(K, ret.Block(), 0) {
+						stripped = false
+					}
+				}
+			})
+		}
+		w.check(P, "R19.2", "multi-dimensional slice targets are rejected", where, found && stripped, fmt.Sprintf("an error is returned under kind == reflect.Slice: %v; the kind tested is that of the element type with every pointer level removed: %v (otherwise `[]*[]T` is filled instead of rejected)", found, found && stripped))
+	}
+	w.floor(P, "R19.2", 4)
 
 	// reflect preconditions on the user's target, shared with C15
 	before := len(w.Obs)
@@ -1609,6 +1811,67 @@ func checkC19(w *World) {
 				w.check(P, "R19.4", "pointer wrapping allocates fresh pointers in "+g.Name(), c.Pos(), true, "reflect.New inside the per-level wrapping loop")
 			}
 		})
+	}
+	// nested struct and slice targets are freshly allocated: every call by which the walk re-enters the conversion hands
+	// it reflect.New(T).Interface(), never a pointer found in the user's target (filling what an existing pointer
+	// points to accumulates into a reused slice and writes through pointers the caller shares with other values)
+	{
+		var entry *ssa.Function
+		allInstrs(um, func(in ssa.Instruction) {
+			if c, ok := in.(*ssa.Call); ok {
+				if g := staticCallee(c); g != nil && fnPkgKey(g) == "exec" && closure[g] && g != um && len(g.Params) >= 2 {
+					if _, isIface := g.Params[1].Type().Underlying().(*types.Interface); isIface && entry == nil {
+						entry = g
+					}
+				}
+			}
+		})
+		if entry != nil {
+			nRe := 0
+			for g := range closure {
+				if g == um {
+					continue
+				}
+				allInstrs(g, func(in ssa.Instruction) {
+					c, ok := in.(*ssa.Call)
+					if !ok || staticCallee(c) != entry || len(c.Call.Args) < 2 {
+						return
+					}
+					nRe++
+					fresh := false
+					var isFreshNew func(v ssa.Value, d int) bool
+					isFreshNew = func(v ssa.Value, d int) bool {
+						nc, isCall := v.(*ssa.Call)
+						if !isCall || staticCallee(nc) == nil || d > 2 {
+							return false
+						}
+						h := staticCallee(nc)
+						if funcFullName(h) == "reflect.New" {
+							return true
+						}
+						// a helper of the package every return of which is a pointer it has just allocated
+						if fnPkgKey(h) != "exec" || len(h.Blocks) == 0 || h.Signature.Results().Len() != 1 {
+							return false
+						}
+						all, n := true, 0
+						allInstrs(h, func(in2 ssa.Instruction) {
+							if ret, isRet := in2.(*ssa.Return); isRet {
+								n++
+								if !isFreshNew(ret.Results[0], d+1) {
+									all = false
+								}
+							}
+						})
+						return all && n > 0
+					}
+					if ic, isCall := stripConvAll(c.Call.Args[1]).(*ssa.Call); isCall && reflectMethod(ic) == "Interface" && len(ic.Call.Args) > 0 {
+						fresh = isFreshNew(ic.Call.Args[0], 0)
+					}
+					w.check(P, "R19.4", "nested target handed to "+entry.Name()+" in "+g.Name(), c.Pos(), fresh, fmt.Sprintf("the target of the nested conversion is reflect.New(T).Interface(): %v", fresh))
+				})
+			}
+			_ = nRe
+		}
 	}
 	w.floor(P, "R19.4", 2)
 	// R19.6 what Set writes into
